@@ -35,6 +35,13 @@ pub const LAYOUTS: &[&str] = &[
     "E1(@L@)\n\n\n\n\n\nE1(@L@)\n-- end\n",
     "\n\n\nE1(@L@)\n",
     "local veryLongVariableName = E1(@L@)\nlocal anotherVeryLongVariableName = veryLongVariableName\nE1(anotherVeryLongVariableName,\n  @L@)\n",
+    "E1 @L@\nE1 {\n  @L@,\n  @L@\n}\nE1(\n  @L@\n)\nE1({\n  @L@\n})\nE1(@L@)\n",
+    "local o = {m = function(self, a) return a end}\no:m @L@\no:m {\n  @L@\n}\nE1 [[\nlong]]\nE1(@L@)\n",
+    "-- c1\n-- c2\n-- c3\n-- c4\n-- c5\ndo end\nE1(@L@)\nE1(@L@)\n",
+    "E1(@L@)\ndo\n  -- a\n  -- b\n  -- c\n  -- d\nend\nE1(@L@)\n-- x\n-- y\n-- z\n-- w\nlocal unused = 1\nE1(@L@)\n",
+    "E1(@L@)\n-- p\n-- q\n\n-- r\n-- s\nwhile false do\n  -- t\n  E1(@L@)\n  -- u\nend -- v\n-- w\nE1(@L@)\n",
+    "--[[ a\nb ]]\n-- c\n--[[ d ]]\n-- e\nlocal function unused()\n  -- f\n  -- g\nend\n-- h\n-- i\n-- j\n-- k\ntype T = number\nE1(@L@)\n",
+    "if false then\n  -- a\n  -- b\n  -- c\n  -- d\n  E1(@L@)\nend\n-- e\n-- f\n-- g\n-- h\nE1(@L@)\n",
     // Luau constructs for the line-neutral rules
     "local a = 1\na += E1(@L@)\na -= \n  E1(@L@)\nlocal t = {k = 1}\nt.k ..= @L@\nE1(t)[\"k\"] //= E1(@L@)\nE1(a, @L@)\n",
     "for i = 1, 3 do\n  if i == 1 then\n    continue\n  end\n  E1(i, @L@)\nend\nE1(@L@)\n",
@@ -128,7 +135,8 @@ fn judge_graph(graph: &Graph, code: &str, rule_names: &[String], prefix: &[&str]
                     if wrong.is_empty() {
                         None
                     } else {
-                        Some(format!("markers off their line (marker, actual line): {:?}\n--- output\n{}", wrong, text))
+                        let deltas: Vec<i64> = wrong.iter().map(|(n, l)| *l as i64 - *n as i64 - expected_shift).collect();
+                        Some(format!("markers off their line (marker, actual line): {:?} deltas={:?}\n--- output\n{}", wrong, deltas, text))
                     }
                 }
             },
@@ -148,7 +156,21 @@ fn judge_graph(graph: &Graph, code: &str, rule_names: &[String], prefix: &[&str]
             let mut names: Vec<String> = prefix.iter().map(|s| s.to_string()).collect();
             names.extend(graph.path(idx).iter().map(|i| rule_names[*i].clone()));
             let first_is_attribute = lex(code.as_bytes(), Mode::Luau).ok().and_then(|l| l.tokens.first().map(|t| matches!(t.tok, Tok::Sym("@")))).unwrap_or(false);
-            let finding = if first_is_attribute && names.iter().any(|n| n.contains("append_text_comment") && !n.contains("location:'end'")) {
+            let rehoming_rules = ["remove_unused_while", "remove_empty_do", "remove_unused_variable", "remove_unused_if_branch", "filter_after_early_return", "remove_types", "remove_nil_declaration"];
+            let last_rule = names.last().cloned().unwrap_or_default();
+            let multiline_comment_newlines: i64 = lex(code.as_bytes(), Mode::Luau)
+                .map(|l| l.comments.iter().filter(|c| c.long).map(|c| c.text.matches('\n').count() as i64).sum())
+                .unwrap_or(0);
+            let deltas: Vec<i64> = why
+                .split("deltas=[")
+                .nth(1)
+                .and_then(|r| r.split(']').next())
+                .map(|r| r.split(", ").filter_map(|x| x.trim().parse().ok()).collect())
+                .unwrap_or_default();
+            let uniform_small_push_down = !deltas.is_empty() && deltas.iter().all(|d| *d == deltas[0]) && deltas[0] > 0 && deltas[0] <= multiline_comment_newlines;
+            let finding = if multiline_comment_newlines > 0 && uniform_small_push_down && rehoming_rules.iter().any(|r| last_rule.contains(r)) {
+                Some("rehomed-multiline-comment-pushes-code-down".to_owned())
+            } else if first_is_attribute && names.iter().any(|n| n.contains("append_text_comment") && !n.contains("location:'end'")) {
                 Some("start-comment-inserted-after-leading-attribute".to_owned())
             } else {
                 None
@@ -190,11 +212,16 @@ fn run_seed(code: &str, tier: Tier) -> Out {
     // shifted cases: append_text_comment at the start
     for (text, shift) in [("one line", 1i64), ("a\nb\nc", 5), ("x\n", 4)] {
         let rule_json = format!("{{rule:'append_text_comment',text:{}}}", serde_json::to_string(text).unwrap());
-        for prefix_spaces in [false, true] {
-            let mut names = vec![];
-            if prefix_spaces {
-                names.push("'remove_spaces'".to_owned());
-            }
+        let prefixes: Vec<Vec<String>> = vec![
+            vec![],
+            vec!["'remove_spaces'".to_owned()],
+            vec!["'remove_function_call_parens'".to_owned()],
+            vec!["'remove_spaces'".to_owned(), "'remove_function_call_parens'".to_owned()],
+            DEFAULT_RULE_NAMES.iter().map(|n| format!("'{}'", n)).collect(),
+        ];
+        for prefix in prefixes {
+            let prefix_spaces = prefix.len() == 1 && prefix[0] == "'remove_spaces'";
+            let mut names = prefix.clone();
             names.push(rule_json.clone());
             if let Ok(mut block) = dl::parse(code, true) {
                 let resources = Resources::from_memory();
@@ -208,6 +235,9 @@ fn run_seed(code: &str, tier: Tier) -> Out {
                     let pre: Vec<&str> = names.iter().map(|s| s.as_str()).collect();
                     judge_graph(&g, code, &[], &pre, shift, &mut out);
                 }
+            }
+            if !(prefix.is_empty() || prefix_spaces) {
+                continue;
             }
             // location end never shifts
             let end_json = format!("{{rule:'append_text_comment',text:{},location:'end'}}", serde_json::to_string(text).unwrap());
